@@ -631,6 +631,9 @@ func (p *Pool) Put(x any) {
 			return
 		}
 	}
+	if !Active() && len(p.items) >= 4096 {
+		return // plain enumerations that copy objects recycle more buffers than they acquire: do not hoard them
+	}
 	p.items = append(p.items, x)
 }
 
